@@ -274,6 +274,16 @@ func ruleLines(prefix string, t *Type) []string {
 			if r.ExclusiveMax != nil {
 				add("exclusiveMaximum", strconv.FormatBool(*r.ExclusiveMax))
 			}
+			if r.MultipleOf != nil {
+				add("multipleOf", strconv.FormatInt(*r.MultipleOf, 10))
+			}
+		case "object":
+			if r.MinProps != nil {
+				add("minProperties", u(r.MinProps))
+			}
+			if r.MaxProps != nil {
+				add("maxProperties", u(r.MaxProps))
+			}
 		case "date", "decimal":
 			if r.MinStr != nil {
 				add("minimum", q(*r.MinStr))
